@@ -4,3 +4,13 @@ claim("C03", "model_checking",
       "Every frame sequence of 1..3 frames over the boundary lengths {0,1,254,255,256,257,65535,65536,65537} and all MORE/COMMAND combinations is pushed through every encoder entry point (bytes must equal the ZMTP spec bytes) and every decoder entry point under every segmentation in the stated cut family; finite space, fully enumerated.",
       "payload bytes are a fixed pattern; cut family for streams > 16 bytes is the boundary set (singles + pairs), all 2^(n-1) segmentations below that; lengths between the boundary values are assumed to behave like their neighbours",
       "5/C03")
+claim("C05", "model_checking",
+      "E1: explicit-state BFS by re-execution over the delivery lattice of two real ZmtpEngine instances (confluence + no-stuck-state + agreement oracles), exhaustive configuration matrix under 4 endpoint schedules, verdict-table comparison",
+      "The engine pair plus bytes in flight is a finite transition system; every lattice point (bytes delivered each way) is visited for the representative configurations, the full 11x11 type x 4x4 mechanism x credential x identity matrix is run to quiescence under four delivery schedules, and the ZMTP/3, ZMTP/2 and inproc verdict tables are compared with the ZeroMQ pairing table.",
+      "engine output is a function of received bytes (confluence oracle checks it); crypto byte contents excluded from state keys; v2 peers are scripted; a state with a PeerError is terminal; the tcp/ipc transports feed the same engine (their read loop is covered under C04)",
+      "5/C05")
+claim("C06", "model_checking",
+      "E1: exhaustive enumeration of an attacker grammar (greeting variants x all token sequences up to depth k x 2 delivery modes) against the real ZmtpEngine in every local security configuration",
+      "Every attacker stream of the grammar up to depth 2 (quick) / 3 (thorough) is run against the real engine configured with PLAIN, CURVE or NOISE_XX in both roles, with ALLOW_ZMTP2 on and off; the engine must never report HandshakeComplete nor deliver a message except on the one stream family that is a genuine completion (PLAIN connector accepting a PLAIN server).",
+      "attacker has no credentials/keys (tokens drawn from the stated alphabet, crypto tokens are well-formed-but-unkeyed); session actor wiring above the engine is covered by C04/C07; CURVE/NOISE listeners accepting any well-formed client key is by design and out of scope",
+      "5/C06")
